@@ -139,3 +139,69 @@ Example C07_failed_reload_keeps_old_nonvacuous :
   | None => False
   end.
 Proof. vm_compute. repeat split; reflexivity. Qed.
+
+(* The property as observed from outside.  [spec_trace] is the executable statement evaluated by
+   the check on the real server's histories: no transport error and a complete response of the
+   right site for every request whose address is served throughout; the response comes from a
+   configuration that was in force or being started between the request's start and its end —
+   hence from the new configuration for every request started after a successful reload
+   returned, and from the old one after a failed reload; reloads end as their configuration
+   dictates; the listening socket of a continuously served address exists at every observation
+   and is always the same one.
+   EVERY observable history of the model satisfies it: any interleaving, any number of reloads
+   and clients. *)
+Theorem C07_model_histories_satisfy_spec :
+  forall a0 blocked ls s, nodupb a0 = true -> run (init a0 blocked) ls = Some s ->
+  spec_trace a0 (rev (hist s)) = true.
+Proof. exact model_traces_satisfy_spec. Qed.
+Print Assumptions C07_model_histories_satisfy_spec.
+
+Example C07_model_histories_satisfy_spec_nonvacuous :
+  match run (init [0; 1] [9])
+            [LObs 0; LNew 0 1; LConnect 0; LCall [1; 0] 0; LLoadOk; LDup; LDup; LAdv; LSpawn; LSpawn;
+             LNew 1 0; LConnect 1; LAccept 1 0; LAccept 0 1; LAdv; LStop; LStop; LReturn; LObs 1;
+             LNew 0 0; LConnect 2; LAccept 2 1; LAnswer 1; LRecv 1; LAnswer 0; LAnswer 2; LRecv 2; LRecv 0;
+             LCall [0; 1; 9] 2; LLoadOk; LDup; LDup; LListenFail; LNew 1 1; LConnect 3; LAccept 3 1; LAnswer 3; LRecv 3] with
+  | Some s => rev (hist s) =
+      [EObs 0 true 0; EStart 0 0 1; ECall [1; 0] 0; EStart 1 1 0; ERet 0; EObs 1 true 0; EStart 2 0 0;
+       EEnd 1 (Some (0, 0, true)); EEnd 2 (Some (1, 0, true)); EEnd 0 (Some (1, 1, true));
+       ECall [0; 1; 9] 2; ERet 2; EStart 3 1 1; EEnd 3 (Some (1, 1, true))]
+  | None => False
+  end.
+Proof. vm_compute. reflexivity. Qed.
+
+(* the specification is not trivially true: it rejects the old configuration answering a request
+   started after the reload returned, a transport error at a served address, an answer from a
+   configuration whose load failed, a reload result other than the configuration's, a socket
+   that disappeared or was replaced *)
+Example C07_spec_rejects :
+  spec_trace [0] [ECall [0] 0; ERet 0; EStart 0 0 0; EEnd 0 (Some (0, 0, true))] = false /\
+  spec_trace [0] [ECall [0] 0; EStart 0 0 0; ERet 0; EEnd 0 None] = false /\
+  spec_trace [0] [ECall [0] 1; ERet 1; EStart 0 0 0; EEnd 0 (Some (1, 0, true))] = false /\
+  spec_trace [0] [EStart 0 0 0; EEnd 0 (Some (0, 1, true))] = false /\
+  spec_trace [0] [EStart 0 0 0; EEnd 0 (Some (0, 0, false))] = false /\
+  spec_trace [0] [ECall [0] 0; ERet 1] = false /\
+  spec_trace [0] [EObs 0 true 0; ECall [0] 0; EObs 0 false 0; ERet 0] = false /\
+  spec_trace [0] [EObs 0 true 0; ECall [0] 0; ERet 0; EObs 0 true 1] = false.
+Proof. vm_compute. repeat split; reflexivity. Qed.
+
+(* The judge's acceptance check is sound: when it says that the model accepts an observed
+   history, a run of the model with exactly that observable history exists (it was executed
+   step by step by the kernel); consequently an accepted history satisfies the specification. *)
+Theorem C07_accepts_sound :
+  forall a0 blocked evs, accepts a0 blocked evs = true ->
+  nodupb a0 = true /\ exists ls s, run (init a0 blocked) ls = Some s /\ rev (hist s) = evs.
+Proof. exact accepts_sound. Qed.
+Print Assumptions C07_accepts_sound.
+
+Theorem C07_accepted_history_satisfies_spec :
+  forall a0 blocked evs, accepts a0 blocked evs = true -> spec_trace a0 evs = true.
+Proof. exact accepted_history_satisfies_spec. Qed.
+Print Assumptions C07_accepted_history_satisfies_spec.
+
+Example C07_accepts_nonvacuous :
+  accepts [0; 1] [9]
+    [EObs 0 true 0; EStart 0 0 1; ECall [1; 0] 0; EStart 1 1 0; ERet 0; EObs 1 true 0; EStart 2 0 0;
+     EEnd 1 (Some (0, 0, true)); EEnd 2 (Some (1, 0, true)); EEnd 0 (Some (1, 1, true));
+     ECall [0; 1; 9] 2; ERet 2; EStart 3 1 1; EEnd 3 (Some (1, 1, true))] = true.
+Proof. vm_compute. reflexivity. Qed.
